@@ -3,3 +3,7 @@
 
 def drive_merge_clients(ctx, tier):
     pass
+
+
+def drive_retrieval_clients(ctx, tier):
+    pass
